@@ -119,8 +119,8 @@ def run(F, rep):
               'split at the exponent marker is %s' % subs, 'split at ePos / ePos+1')
 
     # ---------------------------------------------------------------- X: conversions never throw
-    rep.rule('C16.X1', 'every std::sto* call handles out_of_range and is screened (here or in every caller) by the recogniser of its kind, or handles both exception types')
-    n = exc.sto_rule(F, rep, 'C16.X1', STO_EXEMPT)
+    rep.rule('C16.X1', 'every std::sto* call is applied only to text accepted by the recogniser of its kind (here or in every caller) - sto* itself accepts a larger language - and handles out_of_range')
+    n = exc.sto_rule(F, rep, 'C16.X1', STO_EXEMPT, require_screen=True)
     if n < 5:
         raise AnalysisBroken('C16.X1: %d sto* sites found, 6 confirmed' % n)
     rep.rule('C16.X2', 'no throw expression in src')
